@@ -13,3 +13,6 @@ open Gossamer.C22
 #print axioms C22_safe
 #print axioms C22_locked_later
 #print axioms C22_safe_of_rule
+#print axioms C22_safe_nonvacuous
+#print axioms C22_possible_complete
+#print axioms C22_closable_of_computed
